@@ -368,3 +368,22 @@ M("c15-reuse-while-unused", "C15", "R15.2", WAL, "        if len(self.unused_pub
 M("c15-balance-skips-unused", "C15", "R15.5", WAL, "            for pk in list(self.public_key_annotations.keys()) + self.unused_public_keys\n", "            for pk in list(self.public_key_annotations.keys())\n")
 M("c15-restore-no-append", "C15", ["R15.2", "R15.5"], WAL, "        del self.public_key_annotations[public_key]\n        self.unused_public_keys.append(public_key)", "        del self.public_key_annotations[public_key]")
 M("c15-send-save-after-spend", "C15", "R15.3", "skepticoin/scripts/send.py", "        change_address = SECP256k1PublicKey(wallet.get_annotated_public_key(\"change\"))\n        save_wallet(wallet)\n", "        change_address = SECP256k1PublicKey(wallet.get_annotated_public_key(\"change\"))\n")
+
+# ----------------------------------------------------------------------------------------------- C14
+M("c14-reintroduce-d5", "C14", "R14.1", WAL, "            newly_spent_outputs.append(output_reference)\n", "            wallet.spent_transaction_outputs.add(output_reference)\n")
+M("c14-commit-before-sign", "C14", "R14.1", WAL,
+  "                transaction = sign_transaction(wallet, unspent_transaction_outs, Transaction(inputs, outputs))\n                wallet.spent_transaction_outputs.update(newly_spent_outputs)\n",
+  "                wallet.spent_transaction_outputs.update(newly_spent_outputs)\n                transaction = sign_transaction(wallet, unspent_transaction_outs, Transaction(inputs, outputs))\n")
+M("c14-drop-used-test", "C14", "R14.2", WAL,
+  "            if output_reference in wallet.spent_transaction_outputs:\n                # in spent_transaction_outputs we keep track of those outputs that we've spent using this wallet (and\n                # presumably broadcast) but which haven't made it into the chain yet.\n                continue\n", "")
+M("c14-change-forgets-fee", "C14", "R14.3", WAL, "                        collected_value - (value + miners_fee),", "                        collected_value - value,")
+M("c14-no-change-when-nonzero", "C14", "R14.3", WAL, "                if collected_value != value + miners_fee:", "                if collected_value > value + miners_fee + 1:")
+M("c14-sign-whole-tx", "C14", "R14.4", WAL, "    message = transaction.signable_equivalent().serialize()\n\n    signed_inputs = []", "    message = transaction.serialize()\n\n    signed_inputs = []")
+M("c14-enough-without-fee", "C14", "R14.3", WAL, "            if collected_value >= value + miners_fee:", "            if collected_value >= value:")
+M("c14-never-record", "C14", "R14.1", WAL, "                wallet.spent_transaction_outputs.update(newly_spent_outputs)\n", "")
+M("c14-sign-first-input-only", "C14", "R14.4", WAL, "    for input in transaction.signable_equivalent().inputs:", "    for input in transaction.signable_equivalent().inputs[:1]:")
+M("c14-foreign-key-inputs", "C14", "R14.2", WAL, "    for public_key in wallet.keypairs.keys():", "    for public_key in wallet.public_key_annotations.keys():")
+M("c14-recipient-gets-collected", "C14", "R14.3", WAL, "                outputs = [Output(value, output_public_key)]", "                outputs = [Output(collected_value - miners_fee, output_public_key)]")
+M("c14-sign-drops-outputs", "C14", "R14.4", WAL, "        inputs=signed_inputs,\n        outputs=transaction.outputs,", "        inputs=signed_inputs,\n        outputs=transaction.outputs[:1],")
+M("c14-record-all-candidates", "C14", "R14.1", WAL, "            newly_spent_outputs.append(output_reference)\n\n            inputs.append(Input(output_reference, None))",
+  "            inputs.append(Input(output_reference, None))")
